@@ -66,6 +66,9 @@ add("C27", "E-SIM", "property-based testing: generated write bursts against a pa
 add("C29", "E-SIM", "property-based testing: generated lifespans, past source timestamps, partitions forcing late repairs and late joiners; wire monitor bounds the send time of every sample by timestamp + lifespan + one worker period",
     "Held on N generated schedules; send-side oracle plus never-presented for samples expired at write.", SIM_NOTE)
 
+add("C06", "E-SIM", "property-based testing / structure-aware fuzzing in the simulation: random bytes, mutated captured datagrams and structured adversarial RTPS messages (own encoder) spoofing discovered participants; oracle: no panic, CPU bound, allocation bounds, liveness with a never-spoofed newcomer",
+    "Held on N generated hostile datagram sequences; UDP locator conversion and libFuzzer corpus replay are covered by C07's engine.", SIM_NOTE)
+
 # checks built by helper engines: metadata comes from tools/fragments/<ID>.json
 FRAGMENT_ENGINE = {"C08": "E-CODEC", "C14": "E-CODEC", "C38": "E-CODEC", "C34": "E-CHAN", "C42": "E-RT", "C40": "E-GEN", "C41": "E-GEN",
                    "C09": "E-CODEC", "C10": "E-CODEC", "C11": "E-CODEC", "C12": "E-CODEC", "C39": "E-CODEC", "C07": "E-CODEC", "C13": "E-CODEC",
